@@ -69,9 +69,10 @@ class Hooks:
             if isinstance(self.bag, sched.Bag):
                 lo_ok = self.bag.lo is not None and self.bag.lo[0] == "ge"
                 hi_ok = self.bag.hi is not None and self.bag.hi[0] == "le"
-                c.prove("prologue.M.clipped_to_span", z3.And(z3.BoolVal(lo_ok and hi_ok),
-                                                             self.bag.lo[1].v == w.t0 if lo_ok else z3.BoolVal(False),
-                                                             self.bag.hi[1].v == w.Tt(w.N - 1) if hi_ok else z3.BoolVal(False)),
+                c.prove("prologue.M.clipped_to_span", z3.Or(z3.BoolVal(not self.bag.sensors),   # no sensor, no stamp: nothing to clip
+                                                            z3.And(z3.BoolVal(lo_ok and hi_ok),
+                                                                   self.bag.lo[1].v == w.t0 if lo_ok else z3.BoolVal(False),
+                                                                   self.bag.hi[1].v == w.Tt(w.N - 1) if hi_ok else z3.BoolVal(False))),
                         "clip keeps start_time <= tau <= end_time with start_time = initial_pva.name, end_time = increments.index[-1]")
                 if not self.bag.sensors:
                     c.assume(w.K == 0, "no sensors")
@@ -223,6 +224,9 @@ def scenario(py, code, mode, results):
         status = "iteration"
     except ObligationFailed:
         status = "obligation-failed"
+    if sensors:
+        c.prove("frame.measurement_objects_not_written", z3.BoolVal(not any(s_.writes for s_ in sensors)),
+                "no attribute of the caller's Measurement objects is stored to (written: %s)" % sorted({k for s_ in sensors for k in s_.writes}))
     if status == "exit":
         kw = cap.kw or {}
         c.prove("epilogue.result_fields", z3.BoolVal(sorted(kw) == sorted(["trajectory", "trajectory_sd", "gyro", "gyro_sd", "accel", "accel_sd", "innovations"])),
